@@ -141,6 +141,7 @@ func checkC03(p *core.Program, r *core.Report) {
 	r.Rule("R2", "per Modifier.Apply implementation, on every path (loops unrolled 3x, mutator results forked true/false): contact mutated <=> returns true; mutated => the paired change event is logged; not mutated => no change event")
 	r.Rule("R4", "in each Apply, the value stored by a setter, the value announced by the event and the value compared with the getter in the guard are the same value")
 	r.Rule("R5", "engine-side pairs: Contact.ReevaluateQueryBasedGroups reports exactly the groups it adds/removes; both of its callers forward (added, removed) to contact_groups_changed; the resume contact swap is announced by contact_refreshed; actions reach modifiers.Apply only through baseAction.applyModifier")
+	r.Rule("R6", "reset and rebuild: where an Apply calls a mutator that replaces a whole list by an empty one (a parameterless Contact method storing a fresh list into a field, e.g. ClearURNs) and also mutators that add to the same list, `mutated` no longer implies `changed`; every path that reports a change (returns true) is then also controlled by the false edge of an Equal comparison of that list")
 	r.Assumption("the replay semantics of each event type (that applying contact_name_changed sets the name, etc.) is the host's contract and is not checked")
 
 	modIface := p.Interface("flows", "Modifier")
@@ -162,6 +163,8 @@ func checkC03(p *core.Program, r *core.Report) {
 	if !r.Require("modifier_apply_impls", len(applies), 9) {
 		return
 	}
+
+	c03R6(p, r, applies)
 
 	// ---------------- R1
 	nSites := 0
@@ -273,6 +276,23 @@ func c03Apply(p *core.Program, r *core.Report, fn *ssa.Function) {
 				return nil
 			}
 			mn := core.ObjName(o)
+			if o.Name() == "Equal" && len(cc.Args) == 2 {
+				// a comparison of the contact's list as it is now with the list read on entry, before any mutator ran:
+				// on the equal edge the mutations so far cancel out (R6 requires this where a list is reset and rebuilt)
+				var getters []*ssa.Call
+				for _, a := range cc.Args {
+					if g, ok := core.StripConv(a).(*ssa.Call); ok {
+						if go_ := core.CalleeObj(&g.Call); go_ != nil && strings.HasPrefix(core.ObjName(go_), "flows.Contact.") && len(g.Call.Args) == 1 {
+							getters = append(getters, g)
+						}
+					}
+				}
+				if len(getters) == 2 && getters[0] != getters[1] && core.ObjName(core.CalleeObj(&getters[0].Call)) == core.ObjName(core.CalleeObj(&getters[1].Call)) &&
+					(getters[0].Block() == fn.Blocks[0] || getters[1].Block() == fn.Blocks[0]) {
+					return []core.CallOutcome{{Result: core.True, Effects: []core.Effect{{Kind: "SAME", Instr: c}}}, {Result: core.False}}
+				}
+				return nil
+			}
 			if _, ok := c03Mutators[mn]; !ok {
 				return nil
 			}
@@ -300,6 +320,8 @@ func c03Apply(p *core.Program, r *core.Report, fn *ssa.Function) {
 					muts = append(muts, e.Data.(string))
 				case "LOG":
 					logs = append(logs, e.Data.(string))
+				case "SAME":
+					muts = nil // compared equal with the list on entry: no net change up to here
 				}
 			}
 			mutated := len(muts) > 0
@@ -1061,4 +1083,130 @@ func instrReaches(a, b ssa.Instruction) bool {
 		}
 	}
 	return false
+}
+
+// ---------------------------------------------------------------------------------------------- R6
+
+func c03R6(p *core.Program, r *core.Report, applies []*ssa.Function) {
+	contact := p.NamedType("flows", "Contact")
+	if contact == nil {
+		r.Errorf("flows.Contact not found")
+		return
+	}
+	// reset mutators: parameterless Contact methods that store into a slice-typed field a value not derived from it
+	resets := map[*ssa.Function]*types.Var{}
+	writers := map[*types.Var]map[*ssa.Function]bool{}
+	ms := p.SSA.MethodSets.MethodSet(types.NewPointer(contact))
+	for i := 0; i < ms.Len(); i++ {
+		fn := p.SSA.MethodValue(ms.At(i))
+		if fn == nil || fn.Blocks == nil {
+			continue
+		}
+		core.EachInstr(fn, false, func(_ *ssa.Function, in ssa.Instruction) {
+			st, ok := in.(*ssa.Store)
+			if !ok {
+				return
+			}
+			fv := core.FieldAddrVar(st.Addr)
+			if fv == nil {
+				return
+			}
+			if _, isSlice := fv.Type().Underlying().(*types.Slice); !isSlice {
+				return
+			}
+			if writers[fv] == nil {
+				writers[fv] = map[*ssa.Function]bool{}
+			}
+			writers[fv][fn] = true
+			fromSelf := false
+			for v := range core.BackSlice(st.Val, func(*ssa.Call) bool { return true }) {
+				if ld, ok := v.(*ssa.UnOp); ok && core.FieldAddrVar(ld.X) == fv {
+					fromSelf = true
+				}
+			}
+			if len(fn.Params) == 1 && !fromSelf {
+				resets[fn] = fv
+			}
+		})
+	}
+	r.Count("contact_reset_mutators", len(resets))
+	n := 0
+	for _, ap := range applies {
+		var resetCall *ssa.Function
+		var field *types.Var
+		rebuilds := false
+		for _, cs := range core.Calls(ap, true) {
+			g := cs.Common().StaticCallee()
+			if g == nil {
+				continue
+			}
+			if fv, ok := resets[g]; ok {
+				resetCall, field = g, fv
+			}
+		}
+		if resetCall == nil {
+			continue
+		}
+		for _, cs := range core.Calls(ap, true) {
+			if g := cs.Common().StaticCallee(); g != nil && g != resetCall && writers[field][g] {
+				rebuilds = true
+			}
+		}
+		if !rebuilds {
+			continue
+		}
+		n++
+		bad := ""
+		at := ap.Pos()
+		for _, b := range ap.Blocks {
+			ret, ok := b.Instrs[len(b.Instrs)-1].(*ssa.Return)
+			if !ok || len(ret.Results) != 1 {
+				continue
+			}
+			// which predecessors can deliver true
+			var trueBlocks []*ssa.BasicBlock
+			switch v := ret.Results[0].(type) {
+			case *ssa.Const:
+				if v.Value != nil && v.Value.String() == "true" {
+					trueBlocks = append(trueBlocks, b)
+				}
+			case *ssa.Phi:
+				for i, e := range v.Edges {
+					if c, isC := e.(*ssa.Const); isC && c.Value != nil && c.Value.String() == "false" {
+						continue
+					}
+					trueBlocks = append(trueBlocks, v.Block().Preds[i])
+				}
+			default:
+				trueBlocks = append(trueBlocks, b)
+			}
+			for _, tb := range trueBlocks {
+				confirmed := false
+				for _, ce := range core.ControllingConds(tb) {
+					for v := range core.BackSlice(ce.Cond, nil) {
+						c, ok := v.(*ssa.Call)
+						if !ok {
+							continue
+						}
+						if o := core.CalleeObj(&c.Call); o != nil && o.Name() == "Equal" && types.Identical(c.Call.Args[0].Type(), field.Type()) {
+							neg := false
+							if u, ok := ce.Cond.(*ssa.UnOp); ok && u.Op == token.NOT {
+								neg = true
+							}
+							if ce.Taken == neg {
+								confirmed = true
+							}
+						}
+					}
+				}
+				if !confirmed {
+					bad = "a change is reported at " + p.Pos(ret.Pos()) + " without comparing the list before and after"
+					at = ret.Pos()
+				}
+			}
+		}
+		r.Check(bad == "", "R6", core.FuncName(ap)+"/"+resetCall.Name()+"-then-rebuild", p.Pos(at), "every change report is confirmed by a before/after comparison of Contact."+field.Name(),
+			core.FuncName(ap)+" empties Contact."+field.Name()+" with "+resetCall.Name()+" and rebuilds it, so it reports a change whenever the list was not empty: "+bad+" — setting the list to what it already holds reports `modified` and emits a change event every time")
+	}
+	r.Require("reset_and_rebuild_applies", n, 1)
 }
